@@ -730,6 +730,7 @@ func c14CheckBurst(ctx *Ctx, idx int, cs *c14Case, run *c14Run) {
 			}
 		}
 		if same {
+			ctx.Rep.Count(fmt.Sprintf("burst of %d: observed hit vector is one of the %d final outcomes of the lock-level model", len(want), len(finals)))
 			return
 		}
 	}
